@@ -9,69 +9,11 @@ import (
 	"github.com/hashicorp/nodeenrollment"
 	"github.com/hashicorp/nodeenrollment/types"
 	"github.com/hashicorp/nodeenrollment/zzverif/vf"
-	"google.golang.org/protobuf/proto"
-	"google.golang.org/protobuf/types/known/timestamppb"
+	"github.com/hashicorp/nodeenrollment/zzverif/vfs"
+		"google.golang.org/protobuf/types/known/timestamppb"
 )
 
 var VfHarnesses = map[string]func(){"VerifC08Rotate": VerifC08Rotate}
-
-// ---- marshal-based storage, like the real back ends ----
-type vfEntry struct {
-	kind int
-	id   string
-	data []byte
-}
-type vfStorage struct{ entries []vfEntry }
-
-func vfKind(m proto.Message) int {
-	switch m.(type) {
-	case *types.NodeInformation:
-		return 1
-	case *types.RootCertificates:
-		return 2
-	case *types.NodeCredentials:
-		return 3
-	case *types.ServerLedActivationToken:
-		return 4
-	}
-	return 0
-}
-func (s *vfStorage) Store(ctx context.Context, m nodeenrollment.MessageWithId) error {
-	b, err := proto.Marshal(m)
-	if err != nil {
-		return err
-	}
-	k := vfKind(m)
-	for i := range s.entries {
-		if s.entries[i].kind == k && s.entries[i].id == m.GetId() {
-			s.entries[i].data = b
-			return nil
-		}
-	}
-	s.entries = append(s.entries, vfEntry{k, m.GetId(), b})
-	return nil
-}
-func (s *vfStorage) Load(ctx context.Context, m nodeenrollment.MessageWithId) error {
-	k := vfKind(m)
-	for _, e := range s.entries {
-		if e.kind == k && e.id == m.GetId() {
-			return proto.Unmarshal(e.data, m)
-		}
-	}
-	return nodeenrollment.ErrNotFound
-}
-func (s *vfStorage) Remove(ctx context.Context, m nodeenrollment.MessageWithId) error {
-	k := vfKind(m)
-	for i := range s.entries {
-		if s.entries[i].kind == k && s.entries[i].id == m.GetId() {
-			s.entries = append(s.entries[:i], s.entries[i+1:]...)
-			return nil
-		}
-	}
-	return nil
-}
-func (s *vfStorage) List(ctx context.Context, m proto.Message) ([]string, error)     { return nil, nil }
-
 
 func vfRoot(id string, k int, nb, na time.Time) *types.RootCertificate {
 	return &types.RootCertificate{Id: id, PublicKeyPkix: vf.Pkix(k), PrivateKeyPkcs8: vf.Pkcs8(k), PrivateKeyType: types.KEYTYPE_ED25519,
@@ -81,7 +23,7 @@ func vfRoot(id string, k int, nb, na time.Time) *types.RootCertificate {
 // C08: one call of RotateRootCertificates from an arbitrary stored pair of windows.
 func VerifC08Rotate() {
 	ctx := context.Background()
-	st := &vfStorage{}
+	st := &vfs.Storage{}
 	t0 := vf.Now()
 	has := vf.Bool("has-roots")
 	cNB, cNA := vf.TimeFromNow("cNB", t0), vf.TimeFromNow("cNA", t0)
